@@ -9,8 +9,12 @@
 //	                   as Gallina terms for Rib/HooksRun.v
 //	<out>/impl.json    verdicts of the model-free oracle (fold of the callbacks == RIBContents after
 //	                   every step; snapshots contain / lack the announced key and never change) and statistics
+//
+// Sub-command c16conc (conc.go, oracle only): the same oracle over histories in which the hooks are
+// registered in one goroutine while network instances are created in another and a stalled reader
+// keeps one instance locked.
 package main
 
 import "verifharness/drv"
 
-func main() { drv.Main(map[string]drv.Cmd{"c16": runC16}) }
+func main() { drv.Main(map[string]drv.Cmd{"c16": runC16, "c16conc": runC16Conc}) }
